@@ -5,7 +5,7 @@ use std::{
     mem,
     num::NonZeroU32,
     str::FromStr,
-    sync::Arc,
+    sync::{Arc, Mutex as SyncMutex, MutexGuard, PoisonError},
 };
 
 #[cfg(feature = "tls")]
@@ -76,7 +76,17 @@ pub struct Session<T: Transport> {
     transport_rx: Arc<Mutex<T::RecvHandle>>,
     context: Context,
     last_message_id: rpc::MessageId,
-    requests: Arc<Mutex<HashMap<rpc::MessageId, OutstandingRequest>>>,
+    requests: Requests,
+}
+
+/// The table of outstanding requests.
+///
+/// The lock is never held across an `.await`: a reply taken off the transport is recorded in the
+/// same poll, so that dropping a reply future cannot lose another request's reply.
+type Requests = Arc<SyncMutex<HashMap<rpc::MessageId, OutstandingRequest>>>;
+
+fn lock(requests: &Requests) -> MutexGuard<'_, HashMap<rpc::MessageId, OutstandingRequest>> {
+    requests.lock().unwrap_or_else(PoisonError::into_inner)
 }
 
 /// NETCONF session state container.
@@ -215,7 +225,7 @@ impl<T: Transport> Session<T> {
             client_capabilities,
             server_capabilities,
         );
-        let requests = Arc::new(Mutex::new(HashMap::default()));
+        let requests = Arc::new(SyncMutex::new(HashMap::default()));
         Ok(Self {
             transport_tx,
             transport_rx,
@@ -267,14 +277,18 @@ impl<T: Transport> Session<T> {
         let message_id = self.last_message_id.increment();
         let request = O::new(&self.context, build_fn)
             .map(|operation| rpc::Request::new(message_id, operation))?;
+        // register the request before it is sent, so that its reply finds it whenever it arrives
         #[allow(clippy::significant_drop_in_scrutinee)]
-        match self.requests.lock().await.entry(message_id) {
+        match lock(&self.requests).entry(message_id) {
             Entry::Occupied(_) => return Err(Error::MessageIdCollision { message_id }),
             Entry::Vacant(entry) => {
-                request.send(&mut *self.transport_tx.lock().await).await?;
                 _ = entry.insert(OutstandingRequest::Pending);
             }
         };
+        if let Err(err) = request.send(&mut *self.transport_tx.lock().await).await {
+            _ = lock(&self.requests).remove(&message_id);
+            return Err(err);
+        }
         let requests = self.requests.clone();
         let rx = self.transport_rx.clone();
         Ok(Self::recv::<O>(message_id, requests, rx))
@@ -283,7 +297,7 @@ impl<T: Transport> Session<T> {
     #[tracing::instrument(skip(requests, rx), level = "debug")]
     async fn recv<O>(
         message_id: rpc::MessageId,
-        requests: Arc<Mutex<HashMap<rpc::MessageId, OutstandingRequest>>>,
+        requests: Requests,
         rx: Arc<Mutex<<T as Transport>::RecvHandle>>,
     ) -> Result<<O::Reply as IntoResult>::Ok, Error>
     where
@@ -296,13 +310,11 @@ impl<T: Transport> Session<T> {
             let mut rx_guard = rx.lock().await;
             tracing::trace!(?requests);
             tracing::debug!("checking for ready response");
-            if let Some(partial) = requests
-                .lock()
-                .await
+            let ready = lock(&requests)
                 .get_mut(&message_id)
                 .ok_or(Error::RequestNotFound { message_id })?
-                .take()?
-            {
+                .take()?;
+            if let Some(partial) = ready {
                 tracing::debug!("found ready response");
                 let reply: rpc::Reply<O> = partial.try_into()?;
                 break reply.into_result();
@@ -310,9 +322,7 @@ impl<T: Transport> Session<T> {
             tracing::debug!("response to {message_id:?} not yet ready");
             let reply = rpc::PartialReply::recv(&mut *rx_guard).await?;
             #[allow(clippy::significant_drop_in_scrutinee)]
-            match requests
-                .lock()
-                .await
+            match lock(&requests)
                 .get_mut(&reply.message_id())
                 .ok_or_else(|| Error::RequestNotFound {
                     message_id: reply.message_id(),
